@@ -30,21 +30,21 @@ ALL_FIELDS = ["D", "F", "R", "P", "T", "E", "roots", "wroots", "vals", "raws", "
 # per-property configuration: which streams exercise it, which observation channels its statement
 # talks about (projection principle, DESIGN section 5), which oracle families judge it
 PROPS = {
-    "C01": dict(streams=["corpus", "contract", "exh2", "exh3s", "api", "giveup"], fields=["D", "E", "roots"], oracles=["O1"],
+    "C01": dict(streams=["corpus", "contract", "exh2", "exh3s", "api", "giveup", "large"], fields=["D", "E", "roots"], oracles=["O1"],
                 contract=True, title="no premature destruction"),
-    "C02": dict(streams=["corpus", "contract", "weakheavy", "exh2", "script", "api", "giveup"], fields=["D", "F", "E"], oracles=["O2"],
+    "C02": dict(streams=["corpus", "contract", "weakheavy", "exh2", "script", "api", "giveup", "large"], fields=["D", "F", "E"], oracles=["O2"],
                 contract=True, title="values die at most once; no access after release", weakraw="O2"),
-    "C03": dict(streams=["corpus", "contract", "exh2", "exh3s", "api", "shallow"], fields=["D"], oracles=["O3"], contract=True,
+    "C03": dict(streams=["corpus", "contract", "exh2", "exh3s", "api", "shallow", "large"], fields=["D"], oracles=["O3"], contract=True,
                 title="orphaned group destroyed in full, synchronously"),
-    "C04": dict(streams=["corpus", "contract", "weakheavy", "api", "exh2"], fields=["F", "heapobjs"], oracles=["O4"],
+    "C04": dict(streams=["corpus", "contract", "weakheavy", "api", "exh2", "large"], fields=["F", "heapobjs"], oracles=["O4"],
                 contract=True, title="destroyed objects return all memory", leakcheck=True),
     "C05": dict(streams=["corpus", "weakheavy", "contract", "script", "api"], fields=["R", "F", "W", "wroots", "roots"],
                 oracles=["O5"], contract=True, title="Weak observes destruction exactly", weakraw="O5"),
-    "C06": dict(streams=["corpus", "contract", "weakheavy", "raw", "api"], fields=["heapcounts", "C", "W", "R", "roots", "wroots"],
+    "C06": dict(streams=["corpus", "contract", "weakheavy", "raw", "api", "large"], fields=["heapcounts", "C", "W", "R", "roots", "wroots"],
                 oracles=["O6"], contract=False, title="counts and identity exact"),
     "C07": dict(streams=["noadopt"], fields=["D", "R", "roots", "wroots", "vals", "raws", "C", "W", "heapcounts"], oracles=[],
                 contract=False, title="without adoptions identical to std", std=True),
-    "C08": dict(streams=["corpus", "contract", "raw", "exh2", "exh2e", "api", "giveup"], fields=["heap"], oracles=["O8"], contract=False,
+    "C08": dict(streams=["corpus", "contract", "raw", "exh2", "exh2e", "api", "giveup", "large"], fields=["heap"], oracles=["O8"], contract=False,
                 title="bookkeeping exact, symmetric, no dead names"),
     "C09": dict(streams=["contract_full", "exh2"], fields=["D", "heapcounts"], oracles=[], contract=True,
                 title="destroyed sets independent of layout", layout=True),
@@ -52,7 +52,7 @@ PROPS = {
                 title="re-entrant destructors"),
     "C11": dict(streams=["panic", "shallow"], fields=["D", "P", "E", "F", "heapcounts", "roots"], oracles=["O1", "O2", "O5", "O6"],
                 contract=True, title="panicking destructor", panicapi=True),
-    "C12": dict(streams=["api", "raw", "shallow", "giveup", "corpus"], fields=["heap", "R", "E", "D", "F", "vals", "roots", "raws", "C", "W"],
+    "C12": dict(streams=["api", "raw", "shallow", "giveup", "corpus", "large"], fields=["heap", "R", "E", "D", "F", "vals", "roots", "raws", "C", "W"],
                 oracles=["O1", "O2", "O4", "O8", "O12"], contract=False, title="consuming APIs on adopted objects"),
     "C13": dict(streams=["elide", "exh2e", "corpus"], fields=["D", "E", "heap", "roots"], oracles=["O1", "O2"], contract=False,
                 title="elided unadopt", known="D4", o1_free=True),
@@ -68,7 +68,7 @@ SIZES = {  # stream -> (quick count, thorough count)
     "contract": (2500, 60000), "contract_full": (1500, 30000), "weakheavy": (1200, 30000), "raw": (1500, 40000),
     "api": (1500, 40000), "script": (1500, 40000), "panic": (1200, 30000), "elide": (1500, 30000),
     "noadopt": (1500, 40000), "abort": (150, 1500), "exh3s": (2500, 60000), "shallow": (1500, 30000),
-    "giveup": (1500, 30000),
+    "giveup": (1500, 30000), "large": (150, 4000),
 }
 
 
@@ -114,7 +114,7 @@ def make_stream(name, seed, tier):
     if name == "api":
         return list(gen.stream_api(seed, n))
     if name == "script":
-        return list(gen.stream_script(seed, n))
+        return list(gen.stream_script(seed, n)) + list(gen.nested_chain_cases(seed, max(20, n // 15)))
     if name == "panic":
         return list(gen.stream_panic(seed, n))
     if name == "elide":
@@ -127,6 +127,8 @@ def make_stream(name, seed, tier):
         return list(gen.stream_shallow(seed, n))
     if name == "giveup":
         return list(gen.stream_giveup(seed, n))
+    if name == "large":
+        return list(gen.stream_large(seed, n))
     if name == "exh2":
         cs = list(gen.exhaustive(2, 2)) + list(gen.exhaustive(2, 2, with_unrecorded=True)) + list(gen.exhaustive(2, 1, with_same=True))
         return cs
